@@ -484,6 +484,9 @@ type HEVCSPSTree struct {
 	// StRPS is the coding of the SPS.NumShortTermRefPicSets short-term RPSs. When nil, the explicit coding is
 	// rebuilt from SPS.ShortTermRefPicSets (used when the tree comes from a parsed struct).
 	StRPS []HEVCStRPS `json:"st_rps,omitempty"`
+	// MaxLatencyIncreasePlus1, when non-nil, holds sps_max_latency_increase_plus1[ i ] (ue(v), 0..2^32-2) for the
+	// coded entries and overrides the byte-wide field of SPS.SubLayeringOrderingInfos.
+	MaxLatencyIncreasePlus1 []uint32 `json:"max_latency_increase_plus1,omitempty"`
 }
 
 // HEVCSPSInfo reports bit positions (counted from the first bit of the NAL unit header, in unescaped bytes).
@@ -588,7 +591,11 @@ func HEVCWriteSPS(t *HEVCSPSTree) ([]byte, HEVCSPSInfo) {
 			o := s.SubLayeringOrderingInfos[i]
 			w.UE(uint64(o.MaxDecPicBufferingMinus1))
 			w.UE(uint64(o.MaxNumReorderPics))
-			w.UE(uint64(o.MaxLatencyIncreasePlus1))
+			if i < len(t.MaxLatencyIncreasePlus1) {
+				w.UE(uint64(t.MaxLatencyIncreasePlus1[i]))
+			} else {
+				w.UE(uint64(o.MaxLatencyIncreasePlus1))
+			}
 		}
 	}
 	w.UE(uint64(s.Log2MinLumaCodingBlockSizeMinus3))
